@@ -265,3 +265,17 @@ def rederive_sig(sig_der):
 
 
 __all__ = ["build", "to_doc", "envelope", "Prehashed", "encode_dss_signature"]
+
+
+def unknown_signature_oid(pem_body_b64):
+    """the same certificate with its signature algorithm (both places) turned into an
+    object identifier no library knows (ecdsa-with-SHA256 1.2.840.10045.4.3.2 -> ...3.9);
+    it still parses, dates and names are readable"""
+    try:
+        der = base64.b64decode(pem_body_b64)
+    except Exception:
+        return None       # (an element mutated earlier: not a certificate any more)
+    oid = bytes.fromhex("2a8648ce3d040302")
+    if der.count(oid) < 2:
+        return None
+    return base64.b64encode(der.replace(oid, oid[:-1] + b"\x09")).decode()
